@@ -196,7 +196,9 @@ def run(ctx):
     other = ("param", "other")
     lens = N.mk_cmp("==", ("call", ("free", "len"), (SELF,), ()), ("call", ("free", "len"), (other,), ()))
     want_all = ("call", ("free", "all"), (("comp", "gen", N.mk_cmp("==", at(("idx", 0)), ("sub", other, ("idx", 0))), ((rng, ()),), (0,)),), ())
-    ok = len(paths) == 1 and N.canon_lids(paths[0].retval) == N.mk_bool("and", [lens, want_all])
+    # the length of a LazyListContainer is its parse-time count (the "len" obligation above), so either spelling states the same comparison
+    lens2 = N.mk_cmp("==", count, ("call", ("free", "len"), (other,), ()))
+    ok = len(paths) == 1 and N.canon_lids(paths[0].retval) in (N.mk_bool("and", [lens, want_all]), N.mk_bool("and", [lens2, want_all]))
     ctx.ob("C16.R3", fi, ok, "LazyListContainer.__eq__ compares lengths and every element by index", key="eq")
     fi, paths = own_method_paths(ctx, "LazyListContainer", "__getitem__")
     sl = [p for p in paths if ("call", ("free", "isinstance"), (("param", "index"), ("free", "slice")), ()) in p.guards()]
@@ -208,10 +210,18 @@ def run(ctx):
     ctx.ob("C16.R3", fi, all(unwrap(p.retval) == names for p in paths), "LazyContainer.keys iterates the struct's named members in declaration order", key="keys order")
     fi, paths = own_method_paths(ctx, "LazyContainer", "values")
     el, src, _ = comp_of(paths)
-    ctx.ob("C16.R3", fi, el == at(("elem", names, 0)) and src == names, "LazyContainer.values yields self[name] for the named members in declaration order", key="values order")
+    def other_table(src_):
+        # the members are enumerated from another table of the struct (e.g. its name -> index map): whether that table is in declaration order
+        # and whether self[<its entry>] is the member is a fact about LazyStruct.__init__ this rule does not derive -- undecided, not violated
+        return src_ is not None and src_ != names and any(x == N.selfattr("_struct") for x in N.walk(src_))
+    if other_table(src):
+        ctx.error("C16.R3 undecided: LazyContainer.values enumerates %s, not the struct's table of named members" % N.show(src)[:80])
+    ctx.ob("C16.R3", fi, (el == at(("elem", names, 0)) and src == names) or other_table(src), "LazyContainer.values yields self[name] for the named members in declaration order", key="values order")
     fi, paths = own_method_paths(ctx, "LazyContainer", "items")
     el, src, _ = comp_of(paths)
-    ctx.ob("C16.R3", fi, el == ("tuple", (("elem", names, 0), at(("elem", names, 0)))) and src == names, "LazyContainer.items yields (name, self[name]) in declaration order", key="items order")
+    if other_table(src):
+        ctx.error("C16.R3 undecided: LazyContainer.items enumerates %s, not the struct's table of named members" % N.show(src)[:80])
+    ctx.ob("C16.R3", fi, (el == ("tuple", (("elem", names, 0), at(("elem", names, 0)))) and src == names) or other_table(src), "LazyContainer.items yields (name, self[name]) in declaration order", key="items order")
     lc = M.cls("LazyContainer")
     alias = [st for st in lc.node.body if isinstance(st, ast.Assign) and any(isinstance(t, ast.Name) and t.id == "__iter__" for t in st.targets)]
     ok = ("__iter__" in lc.methods and False) or (len(alias) == 1 and isinstance(alias[0].value, ast.Name) and alias[0].value.id == "keys")
